@@ -108,7 +108,7 @@ var cliSkips = []string{"add_table", "drop_table", "add_column", "drop_column"}
 type CLICase struct {
 	Patterns []string `json:"patterns,omitempty"`
 	Skip     []string `json:"skip,omitempty"`
-	Via      string   `json:"via"`    // flag | env | project | project+envdiff
+	Via      string   `json:"via"`    // flag | env | envurl | project | project+envdiff
 	Dev      bool     `json:"dev"`    // --dev-url given
 	Source   string   `json:"source"` // hcl | db
 	// Rebuild: the desired state also changes the type of shared.shown, which SQLite can only do by
@@ -185,7 +185,7 @@ func evalCLI(c CLICase) (problems []string) {
 		}
 		// "project": the policy sits in the project-level diff block and the env inherits it;
 		// "project+envdiff": the env has a diff block of its own holding only a driver option.
-		if c.Via != "env" && len(c.Skip) > 0 {
+		if c.Via != "env" && c.Via != "envurl" && len(c.Skip) > 0 {
 			b.WriteString("diff {\n" + skipBlock("  ") + "}\n")
 		}
 		fmt.Fprintf(&b, "env \"e\" {\n  url = %q\n  src = %q\n", w.URL("db.sqlite"), to)
@@ -200,7 +200,7 @@ func evalCLI(c CLICase) (problems []string) {
 			fmt.Fprintf(&b, "  exclude = [%s]\n", strings.Join(qs, ", "))
 		}
 		switch {
-		case len(c.Skip) > 0 && c.Via == "env":
+		case len(c.Skip) > 0 && (c.Via == "env" || c.Via == "envurl"):
 			b.WriteString("  diff {\n" + skipBlock("    ") + "  }\n")
 		case c.Via == "project+envdiff":
 			b.WriteString("  diff {\n    concurrent_index {\n      create = true\n    }\n  }\n")
@@ -208,6 +208,10 @@ func evalCLI(c CLICase) (problems []string) {
 		b.WriteString("}\n")
 		os.WriteFile(w.Path("atlas.hcl"), []byte(b.String()), 0o644)
 		args = append(args, "--env", "e", "-c", "file://"+w.Path("atlas.hcl"))
+		if c.Via == "envurl" {
+			// the same states, named indirectly through the env's attributes.
+			args = append(args, "--url", "env://url", "--to", "env://src")
+		}
 	} else {
 		args = append(args, "--url", w.URL("db.sqlite"), "--to", to)
 		if c.Dev {
@@ -318,6 +322,10 @@ func cliCases(tier string) []CLICase {
 				cs = append(cs, CLICase{Skip: sk, Via: "env", Dev: dev, Source: "db"}, CLICase{Skip: sk, Patterns: []string{"secret_*"}, Via: "env", Dev: dev, Source: "hcl"})
 			}
 		}
+	}
+	// the states given as env://<attribute> URLs.
+	for _, ps := range [][]string{{"db_only"}, {"hcl_only"}, {"secret_*", "shared.hidden"}, {"keep.n"}} {
+		cs = append(cs, CLICase{Patterns: ps, Via: "envurl", Source: "hcl"})
 	}
 	// the same with the table shared re-created for another change.
 	for _, via := range []string{"flag", "env"} {
